@@ -104,6 +104,8 @@ type Ref struct {
 	// (e.g. a callee touching a caller's block-local name: dynamic vs lexical scoping).
 	Open    bool
 	OpenWhy string
+	pending int
+	writes  int // storage writes so far (declarations, assignments, property writes)
 	// BuiltinHook / FormatHook let individual checks plug library functions and
 	// the % formatter into the reference (they are specified by other properties).
 	BuiltinHook   func(name string, args []V) (V, *ZErr)
@@ -208,6 +210,7 @@ func (rf *Ref) lexLookup(name string) (*binding, bool) {
 }
 
 func (rf *Ref) declare(name string, v V, konst bool) *ZErr {
+	rf.writes++
 	if predefined[name] {
 		return fault(ERedeclared, "predefined "+name)
 	}
@@ -716,6 +719,10 @@ func ParseNum(lit string) (float64, bool) {
 
 func (rf *Ref) eval(e Expr) (V, *ZErr) {
 	rf.tick()
+	// rf.pending counts values already computed and waiting for a sibling to be
+	// evaluated (earlier arguments, a left operand, a receiver, earlier items)
+	p0 := rf.pending
+	defer func() { rf.pending = p0 }()
 	switch v := e.(type) {
 	case Group:
 		return rf.eval(v.E)
@@ -743,6 +750,7 @@ func (rf *Ref) eval(e Expr) (V, *ZErr) {
 				return nil, e
 			}
 			out.Items = append(out.Items, x)
+			rf.pending++
 		}
 		return out, nil
 	case Dict:
@@ -753,6 +761,7 @@ func (rf *Ref) eval(e Expr) (V, *ZErr) {
 				return nil, e
 			}
 			out.Set(kv.Key, x)
+			rf.pending++
 		}
 		return out, nil
 	case Call:
@@ -773,7 +782,9 @@ func (rf *Ref) eval(e Expr) (V, *ZErr) {
 				return nil, e
 			}
 			args = append(args, x)
+			rf.pending++
 		}
+		rf.pending = p0
 		return rf.construct(cv, args)
 	case MCall:
 		cur, e := rf.eval(v.Root)
@@ -782,12 +793,51 @@ func (rf *Ref) eval(e Expr) (V, *ZErr) {
 		}
 		for _, c := range v.Chain {
 			var args []V
+			w0 := rf.writes
+			rf.pending = p0 + 1 // the receiver
 			for _, a := range c.Args {
 				x, e := rf.eval(a)
 				if e != nil {
 					return nil, e
 				}
 				args = append(args, x)
+				rf.pending++
+			}
+			rf.pending = p0
+			if n, isNum := cur.(float64); isNum && (c.Name == "自增" || c.Name == "自减") {
+				// numbers are mutable objects in the implementation: 自增 / 自减 change the
+				// receiver IN PLACE.  Modelled only where the receiver is a plain storage
+				// place (a variable, a property of a variable or of 其); anything else is
+				// outside the reference's domain.
+				if e := argN(args, 1); e != nil {
+					return nil, e
+				}
+				d, ok := args[0].(float64)
+				if !ok {
+					return nil, fault(EParamType, "number expected")
+				}
+				if c.Name == "自减" {
+					d = -d
+				}
+				argsWrote := rf.writes != w0
+				if !rf.storeInPlace(v.Root, n+d) || len(v.Chain) != 1 {
+					rf.Open = true
+					rf.OpenWhy = "in-place number method on a receiver that is not a variable or a property"
+				}
+				if argsWrote {
+					// the storage the receiver was read from may have been re-assigned while
+					// the arguments were evaluated: the implementation then changes an orphan
+					rf.Open = true
+					rf.OpenWhy = "in-place number method whose arguments write to storage"
+				}
+				if p0 > 0 {
+					// an already computed value is waiting (an earlier argument, a left
+					// operand): in the implementation it may BE the number object changed here
+					rf.Open = true
+					rf.OpenWhy = "in-place number method while earlier computed values are pending"
+				}
+				cur = n + d
+				continue
 			}
 			cur, e = rf.method(cur, c.Name, args)
 			if e != nil {
@@ -805,6 +855,7 @@ func (rf *Ref) eval(e Expr) (V, *ZErr) {
 		if e != nil {
 			return nil, e
 		}
+		rf.pending++
 		idx, e := rf.eval(v.Idx)
 		if e != nil {
 			return nil, e
@@ -828,6 +879,7 @@ func (rf *Ref) eval(e Expr) (V, *ZErr) {
 			return nil, e
 		}
 		val = Dup(val)
+		rf.pending++
 		switch t := v.Target.(type) {
 		case Var:
 			b, ok := rf.lookup(t.Name)
@@ -843,6 +895,7 @@ func (rf *Ref) eval(e Expr) (V, *ZErr) {
 				return nil, fault(EConst, t.Name)
 			}
 			b.v = val
+			rf.writes++
 		case Index:
 			root, e := rf.eval(t.Root)
 			if e != nil {
@@ -879,6 +932,37 @@ func (rf *Ref) eval(e Expr) (V, *ZErr) {
 	panic("ref: unknown expr")
 }
 
+// storeInPlace writes the new value of a number that was changed in place back
+// to where the receiver expression read it from (constness does not protect
+// against in-place change).  False: the receiver is not a plain storage place.
+func (rf *Ref) storeInPlace(root Expr, val float64) bool {
+	rf.writes++
+	switch t := root.(type) {
+	case Var:
+		b, ok := rf.lookup(t.Name)
+		if !ok || predefined[t.Name] {
+			return false
+		}
+		b.v = val
+		return true
+	case Group:
+		return rf.storeInPlace(t.E, val)
+	case This:
+		if th := rf.cur().this; th != nil {
+			return rf.setProp(th, t.Name, val) == nil
+		}
+	case Member:
+		if vr, ok := t.Root.(Var); ok {
+			if b, ok := rf.lookup(vr.Name); ok {
+				if o, isObj := b.v.(*OV); isObj {
+					return rf.setProp(o, t.Name, val) == nil
+				}
+			}
+		}
+	}
+	return false
+}
+
 func (rf *Ref) evalBin(v Bin) (V, *ZErr) {
 	switch v.Op {
 	case "且", "或":
@@ -902,7 +986,9 @@ func (rf *Ref) evalBin(v Bin) (V, *ZErr) {
 	if e != nil {
 		return nil, e
 	}
+	rf.pending++
 	r, e := rf.eval(v.R)
+	rf.pending--
 	if e != nil {
 		return nil, e
 	}
@@ -982,13 +1068,16 @@ func (rf *Ref) evalBin(v Bin) (V, *ZErr) {
 
 func (rf *Ref) evalCall(v Call) (V, *ZErr) {
 	var args []V
+	p0 := rf.pending
 	for _, a := range v.Args {
 		x, e := rf.eval(a)
 		if e != nil {
 			return nil, e
 		}
 		args = append(args, x)
+		rf.pending++
 	}
+	rf.pending = p0
 	b, ok := rf.lookup(v.Name)
 	if !ok {
 		return nil, fault(EUndefined, v.Name)
